@@ -11,7 +11,7 @@ Open Scope nat_scope.
 (* ================================================================ the fragment *)
 Definition after (B : list str) (s : stmt) : list str := match s with SAssign x _ => x :: B | _ => B end.
 Definition src_nameb (x : str) : bool :=
-  match x with 35%N :: _ => false | 76%N :: 35%N :: _ => false | _ => true end.
+  match x with 35%N :: _ => false | 76%N :: 35%N :: _ => false | [0%N] => false | _ => true end.
 Definition ok_expr (B : list str) (e : expr) : bool :=
   pure e && lits_ok e && forallb (fun x => src_nameb x && mem_str x B) (used_e e).
 Definition arith5 (o : binop) : bool := match o with BAdd | BSub | BMul | BDiv | BMod => true | _ => false end.
@@ -52,8 +52,16 @@ Fixpoint ok_stmt (il : bool) (B : list str) (s : stmt) {struct s} : bool :=
   | SIfElse c b e => ok_expr B c && okb il B b && okb il B e
   | SIfElif c b n => ok_expr B c && okb il B b && ok_stmt il B n
   | SWhile c b => ok_expr B c && okb true B b
-  | SFrom a b _ st (Some x) false body =>
-    src_nameb x && negb (mem_str x (fnames FT)) && negb (mem_str x B) && ok_expr B a && ok_expr B b && step_ok (x :: B) st && okb true (x :: B) body
+  | SFrom a b _ st nm collide body =>
+    ok_expr B a && ok_expr B b &&
+    match nm, collide with
+    | Some x, false =>   (* a fresh counter: a variable of the enclosing block for the duration of the loop *)
+      src_nameb x && negb (mem_str x (fnames FT)) && negb (mem_str x B) && step_ok (x :: B) st && okb true (x :: B) body
+    | Some x, true =>    (* the counter is an existing variable (the upper bound mentions no variable) *)
+      src_nameb x && negb (mem_str x (fnames FT)) && mem_str x B && match used_e b with [] => true | _ => false end && step_ok B st && okb true B body
+    | None, false => step_ok B st && okb true B body     (* a hidden counter *)
+    | None, true => false
+    end
   | SBreak => il
   | SContinue => il
   | SReturn (Some e) => ok_rhs B e
@@ -71,13 +79,19 @@ Lemma ok_SIfElif : forall il B c b n, ok_stmt il B (SIfElif c b n) = ok_expr B c
 Proof. reflexivity. Qed.
 Lemma ok_SWhile : forall il B c b, ok_stmt il B (SWhile c b) = ok_expr B c && ok_block true B b.
 Proof. reflexivity. Qed.
-Lemma ok_SFrom : forall il B a b incl st x body, ok_stmt il B (SFrom a b incl st (Some x) false body) =
-  src_nameb x && negb (mem_str x (fnames FT)) && negb (mem_str x B) && ok_expr B a && ok_expr B b && step_ok (x :: B) st && ok_block true (x :: B) body.
-Proof. reflexivity. Qed.
+Lemma ok_SFrom : forall il B a b incl st nm collide body, ok_stmt il B (SFrom a b incl st nm collide body) =
+  ok_expr B a && ok_expr B b &&
+  match nm, collide with
+  | Some x, false => src_nameb x && negb (mem_str x (fnames FT)) && negb (mem_str x B) && step_ok (x :: B) st && ok_block true (x :: B) body
+  | Some x, true => src_nameb x && negb (mem_str x (fnames FT)) && mem_str x B && match used_e b with [] => true | _ => false end && step_ok B st && ok_block true B body
+  | None, false => step_ok B st && ok_block true B body
+  | None, true => false
+  end.
+Proof. intros il B a b incl st [x|] [|] body; reflexivity. Qed.
 
 End OkStmt.
 
-Lemma src_nameb_ok : forall x, src_nameb x = true -> uname0 x.
+Lemma src_nameb_ok0 : forall x, src_nameb x = true -> src_name x /\ match x with 76%N :: 35%N :: _ => False | _ => True end.
 Proof.
   intros [|c x] H; [split; exact Logic.I|].
   destruct (N.eq_dec c 35) as [->|H35]; [discriminate|].
@@ -89,6 +103,11 @@ Proof.
   - split.
     + destruct c as [|p]; [exact Logic.I|]. do 6 (destruct p as [p|p|]; try exact Logic.I). congruence.
     + destruct c as [|p]; [exact Logic.I|]. do 7 (destruct p as [p|p|]; try exact Logic.I). congruence.
+Qed.
+Lemma src_nameb_ok : forall x, src_nameb x = true -> uname0 x.
+Proof.
+  intros x H. destruct (src_nameb_ok0 x H) as [H1 H2]. split; [exact H1|]. split; [exact H2|].
+  intros ->. discriminate H.
 Qed.
 
 Lemma mem_str_In : forall x l, mem_str x l = true -> In x l.
@@ -126,6 +145,10 @@ Proof. intros c e H. destruct e; try reflexivity; discriminate. Qed.
 Definition step_code (c : nat) (st : option expr) : list citem :=
   match st with Some e => map CI (pcode c e) | None => [I OP_MAKE_INT [s_one]] end.
 
+(* the VM name of a from-loop counter (a hidden register for an anonymous loop) and the register level after it *)
+Definition from_idn (lr : nat) (nm : option str) : str := match nm with Some x => x | None => lregn (S lr) end.
+Definition from_lr1 (lr : nat) (nm : option str) : nat := match nm with Some _ => lr | None => S lr end.
+
 Fixpoint sitems (c : nat) (lr : nat) (sl : option nat) (s : stmt) {struct s} : list citem :=
   let fix bl (lr : nat) (sl : option nat) (l : list stmt) {struct l} : list citem :=
     match l with [] => [] | s :: l => sitems c lr sl s ++ bl lr sl l end in
@@ -152,16 +175,18 @@ Fixpoint sitems (c : nat) (lr : nat) (sl : option nat) (s : stmt) {struct s} : l
     let cb0 := bl lr (Some 1) body in
     let cb := cb0 ++ [I OP_JMP_POP [neg_off (1 + length cb0 + length cc)]] in
     cc ++ [I OP_WHILE_LOOP [sN (length cb + 1)]] ++ resolve (length cb) 0 0 cb
-  | SFrom a b incl step (Some x) false body =>
-    let endr := lregn (S lr) in
+  | SFrom a b incl step nm collide body =>
+    let x := from_idn lr nm in
+    let lr1 := from_lr1 lr nm in
+    let endr := lregn (S lr1) in
     let cond := [I OP_LOAD_FAST [x]; I OP_LOAD_FAST [endr]; I OP_BIN_OP [if incl then op_le else op_lt]] in
-    let cbody := bl (S lr) (Some 1) body in
+    let cbody := bl (S lr1) (Some 1) body in
     let cstep := step_code c step ++ [I OP_BIN_OP_ASSIGN [[43; 61]%N; x]] in
     let full0 := cbody ++ cstep in
     let full := full0 ++ [I OP_JMP_POP [neg_off (1 + length cond + length full0)]] in
-    map CI (pcode c a) ++ [I OP_STORE_FAST [x]] ++ map CI (pcode c b) ++ [I OP_STORE_FAST [endr]] ++ cond
+    map CI (pcode c a) ++ [I (if collide then OP_STORE else OP_STORE_FAST) [x]] ++ map CI (pcode c b) ++ [I OP_STORE_FAST [endr]] ++ cond
       ++ [I OP_WHILE_LOOP [sN (length full + 1)]] ++ resolve (length full) (length cstep) 0 full
-      ++ [I OP_DELETE_NAME_SCOPED [x; endr]]
+      ++ (if collide then [] else [I OP_DELETE_NAME_SCOPED [x; endr]])
   | SBreak => [CBrk (match sl with Some n => n | None => 0 end)]
   | SContinue => [CCont (match sl with Some n => n | None => 0 end)]
   | SReturn (Some e) => map CI (xcode c e) ++ [I OP_RET []]
@@ -195,16 +220,18 @@ Lemma sitems_SWhile : forall c lr sl cnd body, sitems c lr sl (SWhile cnd body) 
   cc ++ [I OP_WHILE_LOOP [sN (length cb + 1)]] ++ resolve (length cb) 0 0 cb.
 Proof. reflexivity. Qed.
 
-Lemma sitems_SFrom : forall c lr sl a b incl step x body, sitems c lr sl (SFrom a b incl step (Some x) false body) =
-  let endr := lregn (S lr) in
+Lemma sitems_SFrom : forall c lr sl a b incl step nm collide body, sitems c lr sl (SFrom a b incl step nm collide body) =
+  let x := from_idn lr nm in
+  let lr1 := from_lr1 lr nm in
+  let endr := lregn (S lr1) in
   let cond := [I OP_LOAD_FAST [x]; I OP_LOAD_FAST [endr]; I OP_BIN_OP [if incl then op_le else op_lt]] in
-  let cbody := bitems c (S lr) (Some 1) body in
+  let cbody := bitems c (S lr1) (Some 1) body in
   let cstep := step_code c step ++ [I OP_BIN_OP_ASSIGN [[43; 61]%N; x]] in
   let full0 := cbody ++ cstep in
   let full := full0 ++ [I OP_JMP_POP [neg_off (1 + length cond + length full0)]] in
-  map CI (pcode c a) ++ [I OP_STORE_FAST [x]] ++ map CI (pcode c b) ++ [I OP_STORE_FAST [endr]] ++ cond
+  map CI (pcode c a) ++ [I (if collide then OP_STORE else OP_STORE_FAST) [x]] ++ map CI (pcode c b) ++ [I OP_STORE_FAST [endr]] ++ cond
     ++ [I OP_WHILE_LOOP [sN (length full + 1)]] ++ resolve (length full) (length cstep) 0 full
-    ++ [I OP_DELETE_NAME_SCOPED [x; endr]].
+    ++ (if collide then [] else [I OP_DELETE_NAME_SCOPED [x; endr]]).
 Proof. reflexivity. Qed.
 
 (* ================================================================ cstmt = sitems on the fragment *)
@@ -250,24 +277,28 @@ Lemma cstmt_SWhile : forall c sl cnd body st, cstmt path c sl (SWhile cnd body) 
   (cc ++ [I OP_WHILE_LOOP [sN (length cb + 1)]] ++ resolve (length cb) 0 0 cb, st).
 Proof. reflexivity. Qed.
 
-Lemma cstmt_SFrom : forall c sl a b incl step x body st,
-  cstmt path c sl (SFrom a b incl step (Some x) false body) st =
+Lemma cstmt_SFrom : forall c sl a b incl step nm collide body st,
+  cstmt path c sl (SFrom a b incl step nm collide body) st =
+  let '(idn, st) := match nm with
+                    | Some x => (x, st)
+                    | None => (lregn (S (lreg st)), {| fid := fid st; lreg := S (lreg st); fbuf := fbuf st |})
+                    end in
   let '(ca, st) := cexpr path c a st in
   let '(cb_, st) := cexpr path c b st in
   let endr := lregn (S (lreg st)) in
   let st := {| fid := fid st; lreg := S (lreg st); fbuf := fbuf st |} in
-  let cond := [I OP_LOAD_FAST [x]; I OP_LOAD_FAST [endr]; I OP_BIN_OP [if incl then op_le else op_lt]] in
+  let cond := [I OP_LOAD_FAST [idn]; I OP_LOAD_FAST [endr]; I OP_BIN_OP [if incl then op_le else op_lt]] in
   let '(cbody, st) := cblockT c (Some 1) body st in
   let '(cstep, st) := match step with
                       | Some e => cexpr path c e st
                       | None => ([I OP_MAKE_INT [s_one]], st) end in
-  let cstep := cstep ++ [I OP_BIN_OP_ASSIGN [[43; 61]%N; x]] in
+  let cstep := cstep ++ [I OP_BIN_OP_ASSIGN [[43; 61]%N; idn]] in
   let full := cbody ++ cstep in
   let full := full ++ [I OP_JMP_POP [neg_off (1 + length cond + length full)]] in
-  let st := {| fid := fid st; lreg := lreg st - 1; fbuf := fbuf st |} in
-  (ca ++ [I OP_STORE_FAST [x]] ++ cb_ ++ [I OP_STORE_FAST [endr]] ++ cond
+  let st := {| fid := fid st; lreg := lreg st - (match nm with Some _ => 1 | None => 2 end); fbuf := fbuf st |} in
+  (ca ++ [I (if collide then OP_STORE else OP_STORE_FAST) [idn]] ++ cb_ ++ [I OP_STORE_FAST [endr]] ++ cond
       ++ [I OP_WHILE_LOOP [sN (length full + 1)]] ++ resolve (length full) (length cstep) 0 full
-      ++ [I OP_DELETE_NAME_SCOPED [x; endr]], st).
+      ++ (if collide then [] else [I OP_DELETE_NAME_SCOPED [idn; endr]]), st).
 Proof. reflexivity. Qed.
 
 Definition frag_eq (c : nat) (s : stmt) : Prop :=
@@ -330,16 +361,25 @@ Proof.
     rewrite cstmt_SWhile, sitems_SWhile, (cexpr_ok B) by assumption.
     rewrite (cblockT_frag c b Hb FT SP true B _ st) by assumption. reflexivity.
   - intros a b incl step nm col body _ _ _ Hbody FT SP il B sl st H.
-    destruct nm as [x|]; [|discriminate]. destruct col; [discriminate|].
-    rewrite ok_SFrom in H. okx H.
-    rewrite cstmt_SFrom, sitems_SFrom, (cexpr_ok B) by assumption.
-    rewrite (cexpr_ok B) by assumption.
-    cbv zeta. rewrite (cblockT_frag c body Hbody FT SP true (x :: B) _ _) by assumption. cbn [lreg fid fbuf].
-    assert (Est : forall stx : cst, {| fid := fid stx; lreg := S (lreg stx) - 1; fbuf := fbuf stx |} = stx).
+    rewrite ok_SFrom in H. rewrite !Bool.andb_true_iff in H. destruct H as [[Hoa Hob] H].
+    rewrite cstmt_SFrom, sitems_SFrom.
+    assert (Est1 : forall (stx : cst), {| fid := fid stx; lreg := S (lreg stx) - 1; fbuf := fbuf stx |} = stx).
     { intros [f l0 fb]. cbn. now rewrite Nat.sub_0_r. }
-    destruct step as [e|].
-    + cbn [step_ok] in H3. rewrite (cexpr_ok (x :: B)) by assumption. cbn [step_code]. cbn [lreg fid fbuf]. rewrite Est. reflexivity.
-    + cbn [step_code]. cbn [lreg fid fbuf]. rewrite Est. reflexivity.
+    assert (Est2 : forall (stx : cst), {| fid := fid stx; lreg := S (S (lreg stx)) - 2; fbuf := fbuf stx |} = stx).
+    { intros [f l0 fb]. cbn. now rewrite Nat.sub_0_r. }
+    assert (HB : exists B' B'', step_ok B' step = true /\ ok_block FT SP true B'' body = true).
+    { destruct nm as [x|]; destruct col; try discriminate; okx H; eauto. }
+    destruct HB as (B' & B'' & Hst & Hbd).
+    assert (Hstep : forall stx, (match step with Some e => cexpr path c e stx | None => ([I OP_MAKE_INT [s_one]], stx) end)
+                                = (step_code c step, stx)).
+    { intros stx. destruct step as [e|]; [|reflexivity]. cbn [step_ok] in Hst. cbn [step_code]. now rewrite (cexpr_ok B'). }
+    destruct nm as [x|].
+    + cbn [from_idn from_lr1]. rewrite (cexpr_ok B) by assumption. rewrite (cexpr_ok B) by assumption.
+      cbv zeta. rewrite (cblockT_frag c body Hbody FT SP true B'' _ _) by assumption. cbn [lreg fid fbuf].
+      rewrite Hstep. cbn [lreg fid fbuf]. rewrite Est1. reflexivity.
+    + cbn [from_idn from_lr1]. rewrite (cexpr_ok B) by assumption. rewrite (cexpr_ok B) by assumption.
+      cbv zeta. cbn [lreg fid fbuf]. rewrite (cblockT_frag c body Hbody FT SP true B'' _ _) by assumption. cbn [lreg fid fbuf].
+      rewrite Hstep. cbn [lreg fid fbuf]. rewrite Est2. reflexivity.
   - intros FT SP il B sl st H. reflexivity.
   - intros FT SP il B sl st H. reflexivity.
   - intros [e|] _ FT SP il B sl st H; [|discriminate]. cbn [ok_stmt] in H. cbn [cstmt sitems]. now rewrite (cexpr_rhs FT SP B).
